@@ -13,6 +13,7 @@ from tpv import core
 from tpv.core import zint, zreal, Sym, Dim
 from tpv.spec import scenario
 from tpv.tlib import Tensor
+from tpv.torchlib import NumpyArray
 from .geom import POINTS, R1, R2, R3, tensor_of
 
 SPACE = "torchphysics.problem.spaces.space.Space"
@@ -166,7 +167,7 @@ def zbool_(I, v):
 NAMESEL = {"str": "x", "list": ["t", "x"], "tuple": ("x",), "name-slice": slice("x", None)}
 
 
-@scenario("C12", [P + ".__getitem__", P + "._compute_slice"], configs=[f"{l}|{r}|{c}" for l in ("x2t1", "t1x2") for r in ("slice", "int", "symint", "ellipsis", "mask", "index") for c in NAMESEL], bounded=BOUND)
+@scenario("C12", [P + ".__getitem__", P + "._compute_slice"], configs=[f"{l}|{r}|{c}" for l in ("x2t1", "t1x2") for r in ("slice", "int", "symint", "ellipsis", "mask", "index", "npmask", "npindex") for c in NAMESEL], bounded=BOUND)
 def points_selection(S):
     """post: p[rows, names] = exactly the column blocks of `names` in the requested order with Space(names),
     rows as selected (finite, exhaustive case split over the index kinds the code accepts)"""
@@ -205,17 +206,19 @@ def points_selection(S):
         rows = Ellipsis
         rowmap = lambda j: zint(j)
         nrows = zint(N)
-    elif rk == "mask":
+    elif rk in ("mask", "npmask"):
         mk = S.tensor("mask", [N], dtype="bool")
-        rows = mk
+        rows = mk if rk == "mask" else NumpyArray(mk.val)  # a numpy boolean mask selects like the torch mask
         rowmap = None
         nrows = None
+        rk = "mask"
     else:
         M = S.int("M", 1)
         ix = S.tensor("ix", [M], dtype="int", on_access=lambda idx, v: S.ctx.axiom(z3.And(v >= 0, v < zint(N))))
-        rows = ix
+        rows = ix if rk == "index" else NumpyArray(ix.val)  # a numpy index array selects like the index tensor
         rowmap = lambda j: ix.val.at([(j,)])
         nrows = zint(M)
+        rk = "index"
     out = S.outcome(lambda: I.getitem(p, (rows, names)))
     if out[0] == "raise":
         # everything the code does not accept must raise, never mis-select
